@@ -58,7 +58,8 @@ FASTOR_INLINE Tensor<T,I,J> solve(const Tensor<T,I,I> &A, const Tensor<T,I,J> &B
     pivot_inplace(A,p);
     auto tmp(apply_pivot(A,p));
     Tensor<T,I,I> invA = inverse<InvCompType::SimpleInv>(tmp);
-    return matmul(reconstruct(invA,p),B);
+    // post multiplication: the columns of the inverse are permuted back, as for a single right hand side
+    return matmul(reconstruct_colwise(invA,p),B);
 }
 
 
